@@ -455,6 +455,13 @@ def run_c04(run, thorough=False):
                 body = [" %s %s" % (mn, t), " NOP", "L NOP"] if late else ["L NOP", " NOP", " %s %s" % (mn, t)]
                 cases.append({"lines": gen_asm.L(*([" ORG " + org] + body)), "tag": "label-expr",
                               "meta": {"mn": mn, "pos": pos, "k": k, "stmt": 1 if late else 3, "label": True}})
+    # label op label (both replaced by their addresses)
+    for org in ("$1000", "$0"):
+        for mn, t, pos, opc in (("LDX", "#L2-L1", "imm", "-"), ("LDD", "#L1+L2", "imm", "+"), ("LDX", "#L1-L2", "imm", "-"), ("LDA", "L2-L1", "mem", "-")):
+            for late in (False, True):
+                body = [" %s %s" % (mn, t), "L1 NOP", " RMB 7", "L2 NOP"] if late else ["L1 NOP", " RMB 7", "L2 NOP", " %s %s" % (mn, t)]
+                cases.append({"lines": gen_asm.L(*([" ORG " + org] + body)), "tag": "label-label",
+                              "meta": {"mn": mn, "pos": pos, "stmt": 1 if late else 4, "label2": (t.lstrip("#")[:2], opc, t.lstrip("#")[3:])}})
     res = fam_asm.compare_progs(run, "asm.expr", cases)
     bad = {fam_asm_key(d["input"]) for d in run.disagreements}
     hexes = []
@@ -469,6 +476,10 @@ def run_c04(run, thorough=False):
         inp = {"lines": c["lines"], "position": m["pos"]}
         if m.get("label"):
             val = (symtab_ints(im).get("L") or 0) + m["k"] if im["k"] == "ok" else 0
+        elif m.get("label2"):
+            a_, op_, b_ = m["label2"]
+            sy = symtab_ints(im) if im["k"] == "ok" else {}
+            val = expr_value(sy.get(a_) or 0, sy.get(b_) or 0, op_) if im["k"] == "ok" else 0
         else:
             val = expr_value(m["a"], m["b"], m["op"])
         run.case("asm.expr", {"src": [l.strip() for l in c["lines"]], "pos": m["pos"]}, [im["k"], val], nontrivial=True, sample_every=173)
@@ -483,7 +494,7 @@ def run_c04(run, thorough=False):
             continue
         if im["k"] == "diag":
             if 0 <= val <= 65535:
-                rid = region_c04(m, val) if not m.get("label") else None
+                rid = region_c04(m, val) if not (m.get("label") or m.get("label2")) else None
                 # positions that cannot hold the value legitimately reject: FCB > 255, 8-bit immediates
                 if m["pos"] == "fcb" and val > 255:
                     continue
